@@ -27,6 +27,12 @@ pub enum Op {
     CloseRead,
     /// Let this much simulated time pass (the run's clock only moves when every node is idle).
     Sleep { ms: u64 },
+    /// A command envelope whose body the lane cannot accept (malformed Recon / wrong shape): it must have no
+    /// effect and must not disturb anything that follows.
+    BadCmd { lane: String, body: String },
+    /// The peer dies in the middle of a command frame: only the first `keep_pm`/1000 of the encoded frame
+    /// is written, then the write half is dropped. The truncated command must never be delivered.
+    TornCmd { lane: String, body: String, keep_pm: u32 },
 }
 
 #[derive(Debug, Clone, Serialize, Deserialize, PartialEq, Eq)]
@@ -304,6 +310,32 @@ pub fn generate(seed: u64, focus: &str, _tier: Tier) -> AgentScenario {
         }
         for _ in 0..n_ops {
             gen_op(&mut g, &mix, key_pool, &mut ops, &mut linked_lanes);
+        }
+        // Faults of the peer's own frames (separate stream: the rest of the script does not depend on it).
+        if !g.fake {
+            let mut fr = root.sub(&format!("frame-faults{id}"));
+            if fr.chance(1, 4) {
+                for _ in 0..fr.range(1, 2) {
+                    let lane = fr.pick(&["val", "tval", "map", "bmap", "smap", "cmd", "ctl", "sup"]).to_string();
+                    let body = match lane.as_str() {
+                        "map" | "bmap" | "smap" => *fr.pick(&["@update(key:", "@bogus", "abc", "@remove", "@update(key:1,x:2)", "\""]),
+                        "ctl" => *fr.pick(&["@up{item:1}", "@nothing", "{", "7"]),
+                        _ => *fr.pick(&["abc", "@foo", "{1,2}", "\"", "1.5e"]),
+                    };
+                    let pos = fr.usize_below(ops.len() + 1);
+                    ops.insert(pos, Op::BadCmd { lane, body: body.to_string() });
+                }
+            }
+            if fr.chance(1, 8) {
+                let lane = fr.pick(&["val", "map", "cmd", "ctl"]).to_string();
+                let body = match lane.as_str() {
+                    "map" => format!("@update(key:{}) {}", fr.range(0, 3), 900_000 + fr.range(0, 999)),
+                    "ctl" => { use super::model::Ctl; ctl_recon(&Ctl::SetVal { item: 0, start: 900_000 + fr.range(0, 999) as i32, n: 1 }) }
+                    _ => format!("{}", 900_000 + fr.range(0, 999)),
+                };
+                let pos = fr.usize_below(ops.len() + 1);
+                ops.insert(pos, Op::TornCmd { lane, body, keep_pm: fr.range(1, 999) as u32 });
+            }
         }
         peers.push(PeerScript {
             id,
